@@ -88,6 +88,58 @@ Section SessionOnReaders.
     - subst. reflexivity.
   Qed.
 
+  (* ---- a connection that FAILS (I/O error at any offset) instead of ending: what the peer can observe - handler
+     invocations, authentication events, responses - is a prefix of what happens on the delivered bytes ---- *)
+  Definition visible (e : event) : bool :=
+    match e with
+    | ECall _ _ _ _ _ | EWrote _ | EReqAuth _ _ | EEncodeFailed => true
+    | _ => false
+    end.
+
+  Definition prefix {A} (l1 l2 : list A) : Prop := exists r, l2 = l1 ++ r.
+
+  Lemma prefix_nil {A} (l : list A) : prefix [] l.
+  Proof. exists l. reflexivity. Qed.
+  Lemma prefix_refl {A} (l : list A) : prefix l l.
+  Proof. exists []. symmetry. apply app_nil_r. Qed.
+  Lemma prefix_app {A} (p l1 l2 : list A) : prefix l1 l2 -> prefix (p ++ l1) (p ++ l2).
+  Proof. intros [r ->]. exists r. rewrite app_assoc. reflexivity. Qed.
+
+  Lemma filter_arm c : filter visible (if c_read_to c then [EArmRead] else []) = [].
+  Proof. destruct (c_read_to c); reflexivity. Qed.
+
+  Theorem c_serve_loop_prefix fuel : forall c st script,
+    wf_c st ->
+    prefix (filter visible (c_serve_loop fuel c st script)) (filter visible (serve_loop T K fuel c (flat st) script)).
+  Proof.
+    induction fuel as [|f IH]; intros c st script Hw; cbn [c_serve_loop serve_loop]; [apply prefix_nil|].
+    unfold c_request_step, request_step.
+    destruct (request_top T) as [[tag fl]|].
+    - destruct (c_dec_top "Request" tag fl st) as [x st'] eqn:E.
+      destruct (decode_on_readers _ _ _ _ _ _ Hw E) as [O _ _ _].
+      destruct x as [[req n]| | |].
+      + destruct (O _ eq_refl) as (st1 & Efr & Efl & Hw1 & _). rewrite Efr.
+        destruct (handle_batch T K c req script) as [[evs oresp] script'].
+        destruct oresp as [resp|].
+        * destruct (enc_top T (VPtr resp)).
+          -- rewrite !filter_app, <- !app_assoc. repeat apply prefix_app.
+             rewrite <- Efl. apply IH. exact Hw1.
+          -- apply prefix_refl.
+        * apply prefix_refl.
+      + rewrite app_nil_r, filter_app, filter_arm. apply prefix_nil.
+      + rewrite app_nil_r, filter_app, filter_arm. apply prefix_nil.
+      + rewrite app_nil_r, filter_app, filter_arm. apply prefix_nil.
+    - apply prefix_refl.
+  Qed.
+
+  Corollary failing_connection_prefix fuel c conn script :
+    transport_ok conn ->
+    prefix (filter visible (c_serve_loop fuel c (new_decoder false conn) script))
+           (filter visible (serve_loop T K fuel c {| rest := b_data conn; last := 0 |} script)).
+  Proof.
+    intros Hok. destruct (new_decoder_wf false conn Hok) as [Hw Hfl]. rewrite <- Hfl. apply c_serve_loop_prefix. exact Hw.
+  Qed.
+
   (* the session after the handshake, on a connection that delivers [input] by ANY script of read sizes and then ends *)
   Definition c_session_body (c : cfg) (input : bytes) (sizes : list N) (weof : bool) (script : list behaviour) : list event :=
     let conn := new_decoder false {| b_data := input; b_sizes := sizes; b_weof := weof; b_term := EOF |} in
